@@ -57,6 +57,22 @@ CHECKS = {
    "explicit-state BFS + exhaustive m sweep (0..=cap+2 and boundary sizes) over every stored state",
    "shrink_to_fit and shrink_to(m) for every m on every handle of every stored state, both forms: texts unchanged, capacity never grows, never below len, never below m unless it was, exactly max(len,m) or inline for heap targets whether shared or not, inline/static untouched, other handles untouched.",
    "Bounded depth of states."),
+ "C14": ("enumc", "exploration", "§8 C14, §6",
+   "exhaustive enumeration of bounded input domains (all 8/16/32-bit values; structured 64/128-bit families) against core::fmt::Display",
+   "Every value of the 8-, 16- and (thorough) 32-bit integer types and their NonZero forms, and for 64/128-bit types every |v| below a bound, every power of ten/two +-3, type extremes, and every digit count x 4-digit window position x window value x 3 backgrounds, both signs; to_lean_string() bytes must equal Display's. The enumeration is complete over each listed domain; nothing is sampled.",
+   "64/128-bit values outside the listed families are not covered (stated in the evidence). Quick tier strides the 32-bit sweep."),
+ "C15": ("enumc", "exploration", "§8 C15, §6",
+   "exhaustive enumeration: every char, every text up to a length bound through 6 Display carriers, every split/err position of piecewise Display impls, all 2^32 f32 bit patterns (thorough), structured f64 family",
+   "to_lean_string()/try_to_lean_string() equal to_string() on every enumerated input; a Display error gives Err(Fmt) (panic in the plain form) at every error position; every f32 bit pattern (thorough) and a structured f64 family (every exponent x structured mantissas, decimal stress values) parse back to the identical bits.",
+   "f64 coverage is a structured family, not all 2^64 values."),
+ "C16": ("enumc", "exploration", "§8 C16, §6",
+   "exhaustive enumeration of byte / u16 sequences over UTF-8 / UTF-16 class alphabets up to a length bound, std decoders as reference",
+   "Every byte sequence up to length 7 (quick 6) over two 16-symbol alphabets holding a representative of every UTF-8 byte class, the same sequences around 10-17 ASCII bytes, and every u16 sequence up to length 6 over BMP/surrogate boundary values: same acceptance, same Utf8Error fields, byte-identical text as String's decoders.",
+   "One representative per byte class; length bound."),
+ "C19": ("enumc", "exploration", "§8 C19, §6",
+   "exhaustive enumeration of strings, byte inputs and Unstructured seeds with the serde and arbitrary features enabled, String / &str as reference",
+   "Every text up to 5 chars over an escape-heavy alphabet (+ inline-limit lengths) through serde_json both ways, a recording Serializer and the serde::de::value deserializers; every byte sequence up to length 5 over the UTF-8 class alphabet through each visitor method (String's Deserialize as reference); every Unstructured seed up to 3 bytes over all byte values (and longer over a 12-symbol alphabet) for arbitrary/arbitrary_take_rest/size_hint.",
+   "Engine built with features std+serde+arbitrary; length bounds."),
  "C17": ("seqmc", "model_checking", "§8 C17",
    "explicit-state BFS with all-pairs comparison oracle per state + all-pairs representation zoo",
    "In every state: all ordered pairs of handles and every handle against str/&str/String/Cow for ==, !=, cmp, partial_cmp, <, >=, fixed-key Hash, Display/Debug/padding, Borrow/AsRef/Deref, HashMap/BTreeMap lookups by &str; zoo of texts x 9 construction routes, all pairs.",
@@ -65,6 +81,10 @@ CHECKS = {
    "exhaustive panic-position injection into every callback over every stored state, String under the same callback as reference, shadow-heap leak accounting",
    "For every stored state: retain/try_retain with 4 predicates panicking at every call index, extend and collect with 7 item kinds and two size-hint behaviours with next() panicking at every call index, to_lean_string/try_to_lean_string on a Display panicking after every piece count; target equals what String holds after the same panic, others unchanged, counts consistent, nothing leaked after closing.",
    "States up to the stated depth + seeds."),
+ "C20": ("cfgdiff", "model_checking", "§8 C20, §7",
+   "the explicit-state explorer rebuilt under 6 feature x profile configurations (+ the main build); per-level state-graph digests compared; niche/Option oracles in every state; cargo check over the 16-entry feature matrix",
+   "The wide state graph is explored by seven builds of the same explorer (default / no-default-features / all features x dev / release without debug assertions, plus release with assertions) with the C01-C03 oracles on; states, transitions and the sum of state-key hashes per level must be identical across all of them; in every state every handle's last byte avoids the None niche and Some(s) round-trips; every possible 16th byte and heap/static strings of many lengths go through the Option round trip; size/alignment facts are asserted; every subset of {std, serde, arbitrary} x hooks on/off must compile.",
+   "Only the installed 64-bit little-endian target; 32-bit/big-endian layouts are not covered."),
 }
 
 
@@ -84,6 +104,7 @@ def main():
         })
     props = [json.loads(l)["id"] for l in open("/verif/properties.jsonl")]
     na = [{"property_id": p, "reason": "check not built yet in this revision (planned: see DESIGN.md section 8); will be claimed once its engine pass exists"} for p in props if p not in CHECKS]
+    assert not na, na
     m = {
         "version": 1,
         "setup_cmd": "./check setup",
@@ -96,6 +117,8 @@ def main():
         },
         "engines": [
             {"name": "seqmc", "path": "/verif/engines/src/bin/seqmc.rs", "serves_properties": sorted(p for p, v in CHECKS.items() if v[0] == "seqmc"), "kind_free_text": "explicit-state BFS over operation histories on the real crate (re-execution, exact canonical keys, shadow heap), plus per-state deviation passes"},
+            {"name": "enumc", "path": "/verif/engines/src/bin/enumc.rs", "serves_properties": ["C14", "C15", "C16", "C19"], "kind_free_text": "exhaustive enumeration of bounded input domains against std as the reference"},
+            {"name": "cfgdiff", "path": "/verif/check (check_cfgdiff) + seqmc", "serves_properties": ["C20"], "kind_free_text": "seqmc rebuilt under 6 build configurations; differential comparison of state-graph digests; feature-matrix cargo check"},
             {"name": "loomc", "path": "/verif/loomc/src/main.rs", "serves_properties": ["C04"], "kind_free_text": "loom (controlled scheduler, DPOR, C11 visibility) over enumerated small concurrent programs on the real crate; child processes per program range"},
         ],
         "checks": checks,
